@@ -214,7 +214,10 @@ type Interp struct {
 	// PathBind gives memory paths a value ("p0.stream", "len(p0.values)").
 	PathBind map[string]Val
 	heap     map[string]Val
-	heapGen  int
+	// finalHeap holds what the final pass over the fixpoint stored; the rules
+	// read results from it (HeapAt, Elem).
+	finalHeap map[string]Val
+	heapGen   int
 	depth    int
 	stack    []*ssa.Function
 	// OpaqueSubject is set when a branch condition was unknown because of a
@@ -305,9 +308,12 @@ func (in *Interp) RunOuter(fn *ssa.Function, args []Val, start *ssa.BasicBlock, 
 	fr := &frame{in: in, fn: fn, args: args, start: start, outer: outer,
 		blocks: map[*ssa.BasicBlock]bool{start: true}, edges: map[edge]bool{},
 		vals: map[ssa.Value]Val{}}
-	for round := 0; round < 200; round++ {
-		fr.changed = false
-		gen := in.heapGen
+	// The fixpoint is computed with the observers off; one more pass over the
+	// fixpoint then feeds them (ReachedAny, OnCall, the final heap), so that
+	// they describe the fixpoint and not the transient states on the way.
+	observing := in.collect || in.depth == 1
+	in.collect = false
+	pass := func() {
 		fr.memo = map[ssa.Value]Val{}
 		fr.must = map[ssa.Instruction]bool{}
 		fr.returns = map[*ssa.Return][]Val{}
@@ -319,6 +325,11 @@ func (in *Interp) RunOuter(fn *ssa.Function, args []Val, start *ssa.BasicBlock, 
 				fr.evalBlock(b)
 			}
 		}
+	}
+	for round := 0; round < 200; round++ {
+		fr.changed = false
+		gen := in.heapGen
+		pass()
 		if os.Getenv("SC_TRACE") != "" {
 			fmt.Fprintf(os.Stderr, "round %d of %s: changed=%v blocks=%d edges=%d\n", round, fn.Name(), fr.changed, len(fr.blocks), len(fr.edges))
 			for _, b := range fn.Blocks {
@@ -336,6 +347,18 @@ func (in *Interp) RunOuter(fn *ssa.Function, args []Val, start *ssa.BasicBlock, 
 			in.Stuck = append(in.Stuck, "no fixpoint in "+FnName(fn))
 		}
 	}
+	if observing {
+		if in.depth == 1 {
+			in.ReachedAny = map[ssa.Instruction]bool{}
+			in.finalHeap = map[string]Val{}
+		}
+		in.collect = true
+		pass()
+		for i := range fr.reached {
+			in.ReachedAny[i] = true
+		}
+		in.collect = in.depth > 1
+	}
 	out := Outcome{Frame: fr}
 	// a branch whose condition never left bottom would silently cut off its
 	// successors; report it so that callers fail instead of trusting the cut
@@ -347,30 +370,6 @@ func (in *Interp) RunOuter(fn *ssa.Function, args []Val, start *ssa.BasicBlock, 
 			if fr.eval(iff.Cond).K == KBot {
 				in.Stuck = append(in.Stuck, in.Prog.Pos(iff.Cond.Pos()))
 			}
-		}
-	}
-	if in.depth == 1 && !in.collect {
-		// top level: one more pass over the fixpoint to feed the observers
-		in.collect = true
-		in.ReachedAny = map[ssa.Instruction]bool{}
-		fr.memo = map[ssa.Value]Val{}
-		fr.must = map[ssa.Instruction]bool{}
-		fr.returns = map[*ssa.Return][]Val{}
-		fr.panics = map[ssa.Instruction]bool{}
-		fr.mayPanicCalls = map[*ssa.Call]bool{}
-		fr.reached = map[ssa.Instruction]bool{}
-		for _, b := range fn.Blocks {
-			if fr.blocks[b] {
-				fr.evalBlock(b)
-			}
-		}
-		in.collect = false
-		for i := range fr.reached {
-			in.ReachedAny[i] = true
-		}
-	} else if in.collect {
-		for i := range fr.reached {
-			in.ReachedAny[i] = true
 		}
 	}
 	out.CanPanic = len(fr.panics) > 0 || len(fr.mayPanicCalls) > 0
@@ -1195,6 +1194,13 @@ func (fr *frame) store(addr, v Val) {
 		in.heap[addr.S] = nv
 		in.heapGen++
 	}
+	if in.collect && in.finalHeap != nil {
+		if f, ok := in.finalHeap[addr.S]; ok {
+			in.finalHeap[addr.S] = join(f, v)
+		} else {
+			in.finalHeap[addr.S] = v
+		}
+	}
 }
 
 func zeroVal(t types.Type) Val {
@@ -1370,7 +1376,7 @@ func (fr *frame) call(c *ssa.Call) Val {
 			switch t.Underlying().(type) {
 			case *types.Slice:
 				return Val{K: KSlice, S: term + suffix, Len: -1}
-			case *types.Basic:
+			case *types.Basic, *types.Interface:
 				return symVal(term+suffix, dep)
 			}
 			return topDep(dep)
@@ -1413,6 +1419,9 @@ func (fr *frame) call(c *ssa.Call) Val {
 	}
 	if nres == 0 {
 		return top
+	}
+	if len(out.Ret) != nres {
+		return unknown(dep) // recursion or depth cut-off: nothing known about the results
 	}
 	if nres == 1 {
 		return out.Ret[0]
@@ -1594,14 +1603,31 @@ func (fr *frame) pureCall(fn *ssa.Function, args []Val) (Val, bool) {
 
 // HeapAt returns what the analysed code stored at a memory path.
 func (in *Interp) HeapAt(path string) (Val, bool) {
+	if in.finalHeap != nil {
+		v, ok := in.finalHeap[path]
+		return v, ok
+	}
 	v, ok := in.heap[path]
 	return v, ok
+}
+
+// FinalHeap returns the memory as the fixpoint left it.
+func (in *Interp) FinalHeap() map[string]Val {
+	if in.finalHeap != nil {
+		return in.finalHeap
+	}
+	return in.heap
 }
 
 // Elem reads element i of a modelled slice after a run (join of all stores to
 // that index and to unknown indices; zero value if never stored).
 func (in *Interp) Elem(s Val, i int, t types.Type) Val {
 	fr := &frame{in: in}
+	if in.finalHeap != nil {
+		save := in.heap
+		in.heap = in.finalHeap
+		defer func() { in.heap = save }()
+	}
 	return fr.load(fmt.Sprintf("%s[%d]", s.S, s.Off+i), t)
 }
 
@@ -1631,5 +1657,6 @@ func (fr *frame) Reached(instr ssa.Instruction) bool { return fr.reached[instr] 
 // ResetHeap forgets everything stored so far.
 func (in *Interp) ResetHeap() {
 	in.heap = map[string]Val{}
+	in.finalHeap = nil
 	in.heapGen++
 }
